@@ -113,6 +113,9 @@ def make_run(cfg):
                         got["a"].append(p.track("A", cfg["tracked"]))
                     for _ in range(cfg["untracked"]):
                         got["a"].append(p.untrack_last("A"))
+                    if cfg.get("raising_resource"):
+                        got["a"].append(p.track_raising("A"))
+                        got["a"].append(("after-raising", p.ping("a3")))
                     if cfg.get("churn"):
                         got["a"].append(("addresses-reused", p.churn("A")))
                     for si in range(cfg.get("streams", 0)):
@@ -333,6 +336,10 @@ def configs(quick):
     for server in ("multiplex", "thread"):
         for ending in ("release", "reset@40"):
             out.append({"server": server, "ending": ending, "tracked": 1, "untracked": 0, "other": True, "first_call_oneway": True, "p": 1, "r": 1 if quick else 2, "horizon": 4000})
+    # a tracked resource whose close() raises (closed once all the same, the other resources too)
+    for server in ("multiplex", "thread"):
+        for ending in ("release", "reset@40"):
+            out.append({"server": server, "ending": ending, "tracked": 2, "untracked": 0, "other": True, "raising_resource": True, "p": 0, "r": 0, "horizon": 4000})
     # the disconnect hook installed on the daemon instance
     for server in ("multiplex", "thread"):
         for ending in ("release", "reset@40"):
